@@ -1,5 +1,10 @@
 import AgModel.Proofs.PoolS2N
 import AgModel.Proofs.PoolS2NComplete
+import AgModel.Proofs.PoolS2NGlue
+import AgModel.Proofs.PoolS2NGlueEvents
+import AgModel.Proofs.PoolS2NGluePanic
+import AgModel.Proofs.PoolS2NGlueSoundEv
+import AgModel.Proofs.PoolS2NGlueOnce
 /-!
 # C06 — Safe-to-notar / safe-to-skip are signalled exactly when the protocol allows
 
@@ -128,5 +133,263 @@ example :
     let e : Epoch := { stakes := [1, 1, 1, 1, 1], own := 0 }
     let r := slotRun e { slot := 3 } [.vote ⟨.skip, 3, 0, 1⟩, .vote ⟨.skip, 3, 0, 2⟩, .vote ⟨.notar, 3, 7, 0⟩]
     r.2.2 = [.repair 3 7, .s2s 3] := by decide
+
+/-! ## The pool level: which block gets `parentKnown` / `parentCertified`, and when
+
+`poolRun` (Proofs/PoolGlue.lean) runs any list of pool operations — votes, received certificates, block registrations —
+from the empty pool `{ epoch := e }`; certificates created by votes are added by `add_valid_cert` exactly as in
+`PoolImpl`, with finalization, pruning and `notify_waiting_children` interleaved. A registration `.block b par` is
+*accepted* when `b.1 > par.1` and the finality tracker takes the link (`Finality.addParent … = .ok …`; it refuses — a
+"consensus safety violation" assertion, `add_block` then panics before touching the pool — when the same block was
+registered with a different parent or the link would finalize a block conflicting with a finalized one).
+`Held p par`: the slot state of `par.1` exists and holds a notarization, notar-fallback or fast-finalization
+certificate for `par.2`. `kidsOf p par`: the children waiting under `par` in `s2n_waiting_parent_cert`. -/
+
+/-- **Flag completeness.** Whenever an accepted registration `b → par` happened during the run and `b`'s slot is still
+    retained, the slot state of `b.1` exists, `b` has a parent entry, and the entry is `true` as soon as the pool holds a
+    certificate for `par` — whichever of the block, the certificate (received, or created by votes) arrived last, and
+    whatever was pruned, re-created or registered in between. If the entry is still `false`, `b` is queued under `par`. -/
+theorem pool_parent_flag_complete (e : Epoch) (pre post : List PoolOp) (b par : Nat × Nat) :
+    let q := (poolRun { epoch := e } pre).1
+    let p := (poolRun { epoch := e } (pre ++ .block b par :: post)).1
+    b.1 > par.1 → (∃ t ev, Finality.addParent q.fin b par = .ok t ev) → p.fin.first ≤ b.1 →
+    ∃ st flag, p.getSlot b.1 = some st ∧ st.parents.lookup b.2 = some flag ∧
+      (Held p par → flag = true) ∧ (flag = false → b ∈ kidsOf p par) := by
+  intro q p hgt hacc hret
+  have hinv := poolRun_flag (pre ++ .block b par :: post) [] { epoch := e } (FlagInv.init e)
+  have hmem := mem_regsRun { epoch := e } pre post b par ⟨hgt, hacc⟩
+  obtain ⟨st, hg, hc⟩ := hinv.2 (b, par) (by simpa using hmem) hret
+  rcases hc with hc | ⟨hc, hw⟩
+  · exact ⟨st, true, hg, hc, fun _ => rfl, fun h => by cases h⟩
+  · rcases hw with ⟨hx, _⟩ | ⟨_, hnh, hk⟩
+    · cases hx
+    · exact ⟨st, false, hg, hc, fun hh => absurd hh hnh, fun _ => hk⟩
+
+/-- The acceptance hypothesis is necessary: after two conflicting fast-finalization certificates for slots 2 and 3, the
+    tracker refuses the link `(3,7) → (2,8)` (block `(2,9)` is finalized), `add_block` panics, and block `(3,7)` has
+    no parent entry although its slot state exists and is retained. -/
+theorem pool_parent_flag_needs_acceptance :
+    let e : Epoch := { stakes := [1], own := 0 }
+    let r := poolRun { epoch := e } [.cert ⟨.ff, 3, 7, [], [], 0⟩, .cert ⟨.ff, 2, 9, [], [], 0⟩, .block (3, 7) (2, 8)]
+    r.1.fin.first ≤ 3 ∧ (r.1.getSlot 3).map (fun st => st.parents.lookup 7) = some none ∧ Event.panic ∈ r.2 := by
+  decide +kernel
+
+/-- **Flag soundness.** A parent entry `h ↦ true` in the slot state of `s` exists only if block `(s, h)` was registered
+    (accepted) with some parent `par` during the run **and** the pool stored — and announced with `CertCreated` — a
+    notarization, notar-fallback or fast-finalization certificate for that very `par` during the run. (Applied to every
+    prefix of a run: not later than the operation in which the entry became `true`.) -/
+theorem pool_parent_flag_sound (e : Epoch) (ops : List PoolOp) (s h : Nat) (st : SlotState) :
+    let p := (poolRun { epoch := e } ops).1
+    p.getSlot s = some st → st.parents.lookup h = some true →
+    ∃ pre post par c, ops = pre ++ .block (s, h) par :: post ∧
+      (s > par.1 ∧ ∃ t ev, Finality.addParent (poolRun { epoch := e } pre).1.fin (s, h) par = .ok t ev) ∧
+      Event.cert c ∈ (poolRun { epoch := e } ops).2 ∧ (c.kind = .notar ∨ c.kind = .nf ∨ c.kind = .ff) ∧
+      (c.slot, c.hash) = par := by
+  intro p hg hl
+  have hinv := poolRun_sound e ops [] (fun _ => False) { epoch := e } (SoundInv.init e)
+  obtain ⟨par, hr, hc⟩ := hinv.2.2.1 s st hg h hl
+  rw [getSlot_slot hg] at hr
+  obtain ⟨pre, post, he, ha⟩ := regsRun_mem ops _ _ (by simpa using hr)
+  rcases hc with hc | hc
+  · cases hc
+  · obtain ⟨c, hm, hs, hid⟩ := certIds_mem hc
+    exact ⟨pre, post, par, c, he, ha, hm, hs, hid⟩
+
+/-- every certificate for a block the pool holds (`Held`) was announced with `CertCreated` during the run; together with
+    `pool_parent_flag_sound`: held certificates only disappear by pruning, never silently appear -/
+theorem pool_held_announced (e : Epoch) (ops : List PoolOp) (par : Nat × Nat) :
+    Held (poolRun { epoch := e } ops).1 par →
+    ∃ c, Event.cert c ∈ (poolRun { epoch := e } ops).2 ∧ (c.kind = .notar ∨ c.kind = .nf ∨ c.kind = .ff) ∧
+      (c.slot, c.hash) = par := by
+  intro ⟨st, hg, hh⟩
+  have hinv := poolRun_sound e ops [] (fun _ => False) { epoch := e } (SoundInv.init e)
+  have := hinv.2.2.2 par.1 st hg par.2 hh
+  rw [getSlot_slot hg] at this
+  rcases this with hc | hc
+  · cases hc
+  · exact certIds_mem hc
+
+/-- **No `parent not known` panic.** In every reachable pool, every child in the waiting map whose slot is retained is a
+    known parent entry of its (existing) slot state — the waiting map only holds registered children —, hence
+    `notify_waiting_children` for any block emits no panic. (`add_valid_cert` calls it on the pool after the
+    certificate was stored and the watermark advanced: `pool_no_unknown_parent_panic_wake`; `add_block` calls
+    `notify_parent_certified` for the entry it has just created: `pool_no_unknown_parent_panic_block`.) -/
+theorem pool_no_unknown_parent_panic (e : Epoch) (ops : List PoolOp) :
+    let p := (poolRun { epoch := e } ops).1
+    (∀ par kids, (par, kids) ∈ p.waiting → ∀ k ∈ kids, p.fin.first ≤ k.1 →
+      ∃ st, p.getSlot k.1 = some st ∧ (st.parents.lookup k.2).isSome = true) ∧
+    (∀ par, Event.panic ∉ (p.notifyWaiting par).2) := by
+  intro p
+  have hinv := poolRun_flag ops [] { epoch := e } (FlagInv.init e)
+  refine ⟨fun par kids hm k hk hf => (hinv.2 (k, par) (hinv.1 par kids hm k hk)).known hf, fun par => ?_⟩
+  exact (notifyWaiting_flag _ p par hinv.1 (fun r hr => (hinv.2 r hr).exempt par)).2
+
+/-- the same inside `add_valid_cert(c)`, at the pool on which `notify_waiting_children` is actually called: after the
+    certificate was stored (`stored`), and after `handle_finalization` advanced the watermark and pruned (`advance`);
+    `FlagInv` is the invariant that holds in every reachable pool (`poolRun_flag`) **and** between the certificates a
+    vote creates (`addValidCert_flag`) -/
+theorem pool_no_unknown_parent_panic_wake (R : List Reg) (p : Pool) (c : Cert) (h : FlagInv R p)
+    (hs : c.kind = .notar ∨ c.kind = .nf ∨ c.kind = .ff) :
+    Event.panic ∉ ((p.stored c).notifyWaiting (c.slot, c.hash)).2 ∧
+    (∀ t r, p.fin.first ≤ t.first → Event.panic ∉ (((p.stored c).advance t r).notifyWaiting (c.slot, c.hash)).2) ∧
+    FlagInv R (p.addValidCert c).1 := by
+  refine ⟨((h.stored c).wake hs).2, fun t r hm => (((h.stored c).advance t r ?_).wake hs).2, addValidCert_flag R c p h⟩
+  unfold Pool.stored
+  rw [(mod_frame p c.slot _).2.1]; exact hm
+
+theorem pool_no_unknown_parent_panic_block (q : Pool) (b par : Nat × Nat) (e0 : List Event) (cert : Bool)
+    (h0 : Event.panic ∉ e0) : Event.panic ∉ (Pool.addBlockTail (q.known b) b par e0 cert).2 :=
+  addBlockTail_no_panic _ b par e0 cert (known_known q b) h0
+
+/-- **No `parent not known` panic, run level.** `trackerRun` (Proofs/PoolS2NGluePanic.lean) lists, operation by operation,
+    only the events produced by `handle_finalization` (finality tracker: "consensus safety violation"; parent-ready
+    tracker), by the parent-ready bookkeeping of `add_valid_cert`, by the signer bound of `add_vote` and by `add_block`'s
+    slot-order / `add_parent` assertions — it leaves out everything `notify_waiting_children`, `SlotState::add_vote` and
+    `add_block`'s own `notify_parent_certified` emit. It is a sub-list of the real events, and **every `.panic` of the run is in
+    it**: no run ever emits the `parent not known` panic of `notify_parent_certified`, from either call site. -/
+theorem pool_panic_only_from_trackers (e : Epoch) (ops : List PoolOp) :
+    (Event.panic ∈ (poolRun { epoch := e } ops).2 ↔ Event.panic ∈ trackerRun { epoch := e } ops) ∧
+    (∀ ev ∈ trackerRun { epoch := e } ops, ev ∈ (poolRun { epoch := e } ops).2) :=
+  ⟨⟨poolRun_panic_source ops [] _ (FlagInv.init e), trackerRun_sub ops _ _⟩, trackerRun_sub ops _⟩
+
+/-- **Pool-level completeness / timeliness of safe-to-notar.** In every reachable pool (positive total stake), for every
+    accepted registration `b → par` whose slot is retained: if the pool holds a certificate for `par`, the stake clause
+    holds for `b` and the node's own vote in the slot is stored and is not a notarization of `b`, then safe-to-notar for
+    `b` **has been raised** (`b.2 ∈ sent`; `check_safe_to_notar` inserts there exactly when it answers `SafeToNotar`).
+    Holding after every operation, this says the signal is raised by the end of the operation that completes the
+    condition — the last vote, the own vote, the block registration, or the parent's certificate by votes or received.
+    Dropping a waiting child (D11), re-creating a pruned one (D20) or not waking on a fast-finalization certificate (D21)
+    would falsify this theorem. -/
+theorem pool_s2n_complete (e : Epoch) (hpos : 0 < e.total) (pre post : List PoolOp) (b par : Nat × Nat) :
+    let q := (poolRun { epoch := e } pre).1
+    let p := (poolRun { epoch := e } (pre ++ .block b par :: post)).1
+    b.1 > par.1 → (∃ t ev, Finality.addParent q.fin b par = .ok t ev) → p.fin.first ≤ b.1 →
+    ∃ st, p.getSlot b.1 = some st ∧
+      (Held p par → stakeClause e st b.2 = true → ownVotedNot e st b.2 = true → b.2 ∈ st.sent) := by
+  intro q p hgt hacc hret
+  obtain ⟨st, flag, hg, hl, hh, _⟩ := pool_parent_flag_complete e pre post b par hgt hacc hret
+  refine ⟨st, hg, fun hheld hst hown => ?_⟩
+  have hc := (poolRun_closed (cinv_closed e hpos) (pre ++ .block b par :: post) { epoch := e } ⟨rfl, SlotsSat.init e _⟩).2 b.1 st hg
+  rcases hc b.2 with x | x
+  · exact x
+  · exact absurd ⟨hst, by rw [hl, hh hheld], hown⟩ x.1
+
+/-- **The pool forwards the signal.** Whatever is recorded in the `sent` set of a slot state of a reachable pool was emitted
+    as a `SafeToNotar` event for that slot among the events of the run (from `add_vote`, from `notify_waiting_children`
+    inside `add_valid_cert`, or from `add_block`). -/
+theorem pool_s2n_emitted (e : Epoch) (ops : List PoolOp) (s h : Nat) (st : SlotState) :
+    (poolRun { epoch := e } ops).1.getSlot s = some st → h ∈ st.sent → Event.s2n s h ∈ (poolRun { epoch := e } ops).2 := by
+  intro hg hh
+  have := (poolRun_emit e (fun ev => ev ∈ (poolRun { epoch := e } ops).2) ops { epoch := e } ⟨rfl, SlotsSat.init e _⟩
+    (fun _ hev => hev)).2 s st hg h hh
+  rw [getSlot_slot hg] at this
+  exact this
+
+/-- **Pool-level timeliness, on the events.** `pool_s2n_complete` with `pool_s2n_emitted`: for a retained accepted
+    registration `b → par`, once the parent's certificate is held and the stake and own-vote conditions hold in the slot
+    state, the event `SafeToNotar(b)` is among the events the pool has emitted — for every run, hence by the end of the
+    operation that completed the condition. -/
+theorem pool_s2n_timely (e : Epoch) (hpos : 0 < e.total) (pre post : List PoolOp) (b par : Nat × Nat) :
+    let q := (poolRun { epoch := e } pre).1
+    let r := poolRun { epoch := e } (pre ++ .block b par :: post)
+    b.1 > par.1 → (∃ t ev, Finality.addParent q.fin b par = .ok t ev) → r.1.fin.first ≤ b.1 →
+    ∃ st, r.1.getSlot b.1 = some st ∧
+      (Held r.1 par → stakeClause e st b.2 = true → ownVotedNot e st b.2 = true → Event.s2n b.1 b.2 ∈ r.2) := by
+  intro q r hgt hacc hret
+  obtain ⟨st, hg, hc⟩ := pool_s2n_complete e hpos pre post b par hgt hacc hret
+  exact ⟨st, hg, fun h1 h2 h3 => pool_s2n_emitted e _ b.1 b.2 st hg (hc h1 h2 h3)⟩
+
+/-- **Pool-level soundness.** Conversely, in every reachable pool a recorded safe-to-notar signal for `(s, h)` is
+    justified: the stake clause and the own-vote condition hold in the slot state, the block was registered (accepted)
+    with some parent, and a notarization / notar-fallback / fast-finalization certificate for that parent was stored and
+    announced during the run. -/
+theorem pool_s2n_sound (e : Epoch) (ops : List PoolOp) (s h : Nat) (st : SlotState) :
+    let p := (poolRun { epoch := e } ops).1
+    p.getSlot s = some st → h ∈ st.sent →
+    stakeClause e st h = true ∧ ownVotedNot e st h = true ∧
+    ∃ pre post par c, ops = pre ++ .block (s, h) par :: post ∧
+      (s > par.1 ∧ ∃ t ev, Finality.addParent (poolRun { epoch := e } pre).1.fin (s, h) par = .ok t ev) ∧
+      Event.cert c ∈ (poolRun { epoch := e } ops).2 ∧ (c.kind = .notar ∨ c.kind = .nf ∨ c.kind = .ff) ∧
+      (c.slot, c.hash) = par := by
+  intro p hg hs
+  have hc := (poolRun_closed (sentSound_closed e) ops { epoch := e } ⟨rfl, SlotsSat.init e _⟩).2 s st hg h hs
+  exact ⟨hc.1, hc.2.2, pool_parent_flag_sound e ops s h st hg hc.2.1⟩
+
+/-- **Pool-level soundness, per emitted event.** Every `SafeToNotar(s, h)` event in the output of a run is for a block that
+    was registered (accepted) with some parent during the run, and a notarization / notar-fallback / fast-finalization
+    certificate for that parent was stored and announced during the run — independently of what happens to the slot state
+    afterwards (it can be pruned within the same operation). With `s2n_s2s_sound` (stake clause, own vote and `true` parent
+    entry in the slot state right after the slot-level step that emitted the event) this is the "only if" half of the
+    statement at pool level. Applied to every prefix of a run: registration and certificate are not later than the operation
+    that emitted the event. -/
+theorem pool_s2n_event_sound (e : Epoch) (ops : List PoolOp) (s h : Nat) :
+    Event.s2n s h ∈ (poolRun { epoch := e } ops).2 →
+    ∃ pre post par c, ops = pre ++ .block (s, h) par :: post ∧
+      (s > par.1 ∧ ∃ t ev, Finality.addParent (poolRun { epoch := e } pre).1.fin (s, h) par = .ok t ev) ∧
+      Event.cert c ∈ (poolRun { epoch := e } ops).2 ∧ (c.kind = .notar ∨ c.kind = .nf ∨ c.kind = .ff) ∧
+      (c.slot, c.hash) = par := by
+  intro hev
+  obtain ⟨par, hr, hc⟩ := poolRun_good e ops [] (fun _ => False) { epoch := e } (SoundInv.init e) _ hev
+  obtain ⟨pre, post, he, ha⟩ := regsRun_mem ops _ _ (by simpa using hr)
+  rcases hc with hc | hc
+  · cases hc
+  · obtain ⟨c, hm, hs, hid⟩ := certIds_mem hc
+    exact ⟨pre, post, par, c, he, ha, hm, hs, hid⟩
+
+/-- **At most once, at pool level.** Among all events a run emits, no `SafeToNotar(s, h)` occurs twice for the same slot and
+    block, and no `SafeToSkip(s)` twice for the same slot (`s2nKey (.s2n s h) = some (s, h)`, `s2sKey (.s2s s) = some (s, ())`) —
+    across pruning and re-creation of slot states: events are only emitted for slots at or above the watermark, those slot
+    states are never dropped, and their `sent` / `sentS2S` records only grow. -/
+theorem pool_s2n_s2s_once (e : Epoch) (ops : List PoolOp) :
+    ((poolRun { epoch := e } ops).2.filterMap s2nKey).Nodup ∧ ((poolRun { epoch := e } ops).2.filterMap s2sKey).Nodup := by
+  have h1 := (poolRun_chan (s2nChan_closed e) ops { epoch := e } rfl (ChanInv.init e)).2
+  have h2 := (poolRun_chan (s2sChan_closed e) ops { epoch := e } rfl (ChanInv.init e)).2
+  rw [List.nil_append] at h1 h2
+  exact ⟨h1, h2⟩
+
+/-- **Pool-level completeness of safe-to-skip** (no parent involved, so no glue beyond "the pool applies slot-level
+    operations"): in every reachable pool, every slot state in which the node notarized some block and
+    `skip + Σ notar − max notar ≥ 40 %` has its safe-to-skip flag set. -/
+theorem pool_s2s_complete (e : Epoch) (ops : List PoolOp) (s : Nat) (st : SlotState) :
+    (poolRun { epoch := e } ops).1.getSlot s = some st → S2SCond e st → st.sentS2S = true := by
+  intro hg hc
+  exact (poolRun_closed (sinv_closed e) ops { epoch := e } ⟨rfl, SlotsSat.init e _⟩).2 s st hg hc
+
+/-! non-vacuity of the pool-level theorems: 5 equal validators, node 0. The node skips slot 3, two others notarize block
+    `(3,7)` (40 %), the block is registered with parent `(2,5)`; the parent's certificate arrives last — as a received
+    *fast-finalization* certificate (the D21 case) — and wakes the waiting child: the flag is set, safe-to-notar is raised.
+    Second run: the certificate (notar-fallback) is there first, the block registration is what arrives last. -/
+example :
+    let e : Epoch := { stakes := [1, 1, 1, 1, 1], own := 0 }
+    let pre : List PoolOp := [.vote ⟨.skip, 3, 0, 0⟩, .vote ⟨.notar, 3, 7, 1⟩, .vote ⟨.notar, 3, 7, 2⟩]
+    let post : List PoolOp := [.cert ⟨.ff, 2, 5, [1, 2, 3, 4], [], 4⟩]
+    let q := (poolRun { epoch := e } pre).1
+    let mid := (poolRun { epoch := e } (pre ++ [.block (3, 7) (2, 5)])).1
+    let r := poolRun { epoch := e } (pre ++ .block (3, 7) (2, 5) :: post)
+    (match Finality.addParent q.fin (3, 7) (2, 5) with | .ok _ _ => true | .panic => false) = true ∧
+    r.1.fin.first ≤ 3 ∧
+    (mid.getSlot 3).map (fun st => (st.parents.lookup 7, st.sent)) = some (some false, []) ∧ kidsOf mid (2, 5) = [(3, 7)] ∧
+    (r.1.getSlot 2).map (·.isNfOrStronger 5) = some true ∧
+    (r.1.getSlot 3).map (fun st => (st.parents.lookup 7, st.sent)) = some (some true, [7]) ∧
+    Event.s2n 3 7 ∈ r.2 := by decide +kernel
+
+example :
+    let e : Epoch := { stakes := [1, 1, 1, 1, 1], own := 0 }
+    let pre : List PoolOp := [.cert ⟨.nf, 2, 5, [1, 2], [3], 3⟩, .vote ⟨.skip, 3, 0, 0⟩, .vote ⟨.notar, 3, 7, 1⟩,
+      .vote ⟨.notar, 3, 7, 2⟩]
+    let r := poolRun { epoch := e } (pre ++ [.block (3, 7) (2, 5)])
+    (r.1.getSlot 2).map (·.isNfOrStronger 5) = some true ∧
+    (r.1.getSlot 3).map (fun st => (st.parents.lookup 7, st.sent)) = some (some true, [7]) ∧
+    Event.s2n 3 7 ∈ r.2 := by decide +kernel
+
+/-! An observation (not a violation of the statement, which asks for a certificate the node *holds*): the pool has no
+    certificate for the genesis block and `is_notar_fallback_or_stronger` does not special-case it (the parent-ready tracker
+    does), so a child of genesis is never safe-to-notar: it waits under `(0,0)` until its slot is pruned. -/
+example :
+    let e : Epoch := { stakes := [1, 1, 1, 1, 1], own := 0 }
+    let r := poolRun { epoch := e } [.vote ⟨.skip, 1, 0, 0⟩, .vote ⟨.notar, 1, 7, 1⟩, .vote ⟨.notar, 1, 7, 2⟩, .block (1, 7) (0, 0)]
+    (r.1.getSlot 1).map (fun st => (st.parents.lookup 7, stakeClause e st 7, ownVotedNot e st 7, st.sent)) =
+      some (some false, true, true, []) ∧
+    kidsOf r.1 (0, 0) = [(1, 7)] ∧ (r.1.getSlot 0).isNone = true ∧ Event.s2n 1 7 ∉ r.2 := by decide +kernel
 
 end AgModel.Pool
